@@ -73,7 +73,7 @@ def check(run):
     found_before = len(run.violations) + len(run.known_hit)
     progs, metas = [], []
     classes = {}
-    for i in range(30000 if thorough else 6000):
+    for i in range(200000 if thorough else 6000):
         fam = rng.choice(["x64", "x86", "a64", "rv"])
         front = rng.choice(["vec", "asm"])
         g = asmgen.Gen(rng, front, fam, max_ops=30, defect_rate=(1, 2), big=False)
